@@ -29,6 +29,15 @@ RULES = [
  ("x/rvesting/module/module.go", "(AppModule).InitGenesis", "time", "time.Now", "class:telemetry-only", "argument of telemetry.MeasureSince"),
  ("x/xibc/clients/light-clients/*/types/hashing.go", "<pkginit>", "sync", "sync.Pool", "class:hasher-pool",
   "pool of keccak states; every user calls Reset() before writing, the digest does not depend on which instance is reused"),
+ # ---- process-local mutable state (kind process-state): every write outside constructors must be justified here ----
+ ("x/aggregate/keeper/keeper.go", "(*Keeper).SetICS4Wrapper", "process-state", "(Keeper).ics4Wrapper assign", "class:startup-wiring",
+  "wiring setter called once from app.NewTeleport (the IBC channel keeper is created after the aggregate keeper); no caller in block processing (checked by the call graph in the thorough tier)"),
+ ("x/xibc/clients/light-clients/*/types/hashing.go", "rlpHash", "process-state", "var hasherPool method:Put", "class:hasher-pool",
+  "sync.Pool of keccak states: every user calls Reset() before writing, the digest does not depend on which instance is reused"),
+ ("x/xibc/core/packet/types/evm.go", "init*", "process-state", "var Tuple* assign", "class:startup-configuration",
+  "ABI tuple types built once by the package's init() through these helpers; never written again"),
+ ("x/xibc/core/client/types/genesis.go", "SetDefaultGenesisState", "process-state", "var defaultGenesis assign", "class:startup-configuration",
+  "exported setter of the default genesis used before InitChain by embedding applications / tests; no caller in the module, unreachable from block processing"),
  ("x/xibc/testing/*", "*", "*", "*", "class:test-support-only", "package xibctesting is imported by tests only"),
  # ---- vendored go-ethereum ethash (PoW seal verification of the ETH light client) ----
  (ETH+"algorithm.go", "generateCache", "unsafe", "*", "class:vendored-ethash-pure-computation", "reinterprets the []uint32 cache as []byte; byte order handled by isLittleEndian/swap"),
